@@ -338,9 +338,10 @@ func c10echo(l net.Listener) {
 }
 
 type c10world struct {
-	tap *tapNet
-	sta *server.State
-	ws  common.WorldState
+	tap    *tapNet
+	sta    *server.State
+	ws     common.WorldState
+	broken bool // a handshake hung: later sessions are skipped (what reached the wire is still validated)
 }
 
 func c10setup(o *outw) *c10world {
@@ -365,7 +366,7 @@ func c10setup(o *outw) *c10world {
 	sta.RedirDialer = rd
 	go c10echo(pl)
 	go server.Serve(tap, sta)
-	return &c10world{tap, sta, ws}
+	return &c10world{tap: tap, sta: sta, ws: ws}
 }
 
 var c10randomName = regexp.MustCompile(`^[a-z]{3,12}\.(com|net|org|it|fr|me|ru|cn|es|tr|top|xyz|info)$`)
@@ -374,6 +375,10 @@ var c10randomName = regexp.MustCompile(`^[a-z]{3,12}\.(com|net|org|it|fr|me|ru|c
 // connection is validated (Go parser = monitor; Lean validator = T rows).
 func c10session(c *ctx, w *c10world, browser, enc, serverName string, numConn int, sid uint32, traffic []int, label string) {
 	o, r := c.o, c.r
+	if w.broken {
+		o.stat("rig_sessions_skipped", 1)
+		return
+	}
 	raw := client.RawConfig{ServerName: serverName, ProxyMethod: "shadowsocks", EncryptionMethod: enc, UID: c10uid, PublicKey: c10pub,
 		NumConn: numConn, Transport: "direct", RemoteHost: "127.0.0.1", RemotePort: "9999", LocalHost: "127.0.0.1", LocalPort: "9999", BrowserSig: browser}
 	_, rcc, ai, err := raw.ProcessRawConfig(w.ws)
@@ -394,6 +399,7 @@ func c10session(c *ctx, w *c10world, browser, enc, serverName string, numConn in
 		// not a C10 verdict by itself: whatever reached the wire is still validated below
 		o.N("C10 rig: handshake did not complete within 30 s (" + label + ")")
 		o.stat("rig_handshake_timeouts", 1)
+		w.broken = true
 	}
 	rigOK := true
 	if sesh != nil {
